@@ -21,13 +21,14 @@ tables = json.load(open(tmp))
 kf = json.load(open(os.path.join(ROOT, "known_findings.json")))
 os.makedirs(os.path.join(ROOT, "findings_data"), exist_ok=True)
 for f in kf["findings"]:
-    if f["property"] == prop and f.get("dev_table"):
+    spec = f.get("dev_table") or f.get("input_list")
+    if f["property"] == prop and spec:
         vals = tables.get(f["id"], {})
-        path = os.path.join(ROOT, f["dev_table"]["file"])
+        path = os.path.join(ROOT, spec["file"])
         old = {}
         if os.path.exists(path) and "--merge" in sys.argv:
             old = json.load(open(path))
         old.update(vals)
         json.dump(old, open(path, "w"), indent=0, sort_keys=True)
-        print(f["id"], len(vals), "entries ->", f["dev_table"]["file"])
+        print(f["id"], len(vals), "entries ->", spec["file"])
 os.remove(tmp)
